@@ -215,7 +215,7 @@ def run(ctx):
                 'index_together, Meta.indexes) x simulation-valid sequences of 1-4 mutations, hand-written or hinted '
                 'from the target models, executed one at a time and batched on SQLite with the index bookkeeping '
                 'scanned from the database; non-trivial = the run executed at least one statement')
-    n = 140 if quick else 4000
+    n = 350 if quick else 6000
     found = {}
     schema_reqs, schema_pend = [], []
     done = 0
